@@ -522,7 +522,9 @@ fn run_rustfmt(
 
     Ok(status
         .iter()
-        .filter_map(|s| if s.success() { None } else { s.code() })
+        .filter(|s| !s.success())
+        // A child killed by a signal has no exit code but did fail.
+        .map(|s| s.code().unwrap_or(FAILURE))
         .next()
         .unwrap_or(SUCCESS))
 }
